@@ -129,7 +129,7 @@ End RT.
 
 (** the pairs used by the accessors: user/password, path, fragment *)
 Definition roundtrip_pairs : list (qcfg * ucfg) :=
-  [(QUOTER, UNQUOTER); (PATH_QUOTER, PATH_UNQUOTER); (FRAGMENT_QUOTER, UNQUOTER)].
+  [(QUOTER, UNQUOTER); (PATH_QUOTER, PATH_UNQUOTER); (FRAGMENT_QUOTER, UNQUOTER); (PATH_QUOTER, UNQUOTER)].
 
 Theorem unquote_quote_roundtrip b kq ku t :
   In (kq, ku) roundtrip_pairs -> valid_str t -> no_sur t ->
@@ -140,7 +140,7 @@ Proof.
                /\ u_qs ku = false
                /\ (forall c, mem c (u_unsafe ku) || mem c (u_ignore ku) = true -> c = 43 /\ e_safe (eff_of kq) 43 = true)).
   { cbn [roundtrip_pairs In] in Hin.
-    destruct Hin as [H|[H|[H|[]]]]; inversion H; subst;
+    destruct Hin as [H|[H|[H|[H|[]]]]]; inversion H; subst;
       (split; [apply cfg_ok_in; cbn; auto 12|]);
       (split; [reflexivity|]); (split; [reflexivity|]); (split; [reflexivity|]);
       intros c Hc; cbn [u_unsafe u_ignore UNQUOTER PATH_UNQUOTER mem orb] in Hc; try discriminate;
